@@ -307,15 +307,14 @@ theorem addFrom_spec (item : Bytes) (n : Nat) : ∀ (bf bf' : Bloom) (i : Nat),
           intro k hk
           rw [List.getElem?_set]
           by_cases hbk : bit = k
-          · simp [hbk, ← hbk, hb]
-          · simp [hbk, hk]
+          · subst hbk; rw [if_pos rfl, if_pos hb]
+          · rw [if_neg hbk]; exact hk
         refine ⟨⟨e1, e2, e3, e4⟩, fun k hk => hmono k (hstep k hk), ?_⟩
         intro j h1 h2
         by_cases hj : j = i
         · subst hj
           refine ⟨bit, hp, hmono bit ?_⟩
-          rw [List.getElem?_set]
-          simp [hb]
+          rw [List.getElem?_set, if_pos rfl, if_pos hb]
         · obtain ⟨pos, hpos, hbit⟩ := hset j (by omega) (by omega)
           refine ⟨pos, ?_, hbit⟩
           rw [← hpos]
